@@ -43,6 +43,9 @@ pub struct Features {
     pub tablets: bool,
     pub lwt_mark: Option<u32>,
     pub rate_limit_code: Option<i32>,
+    /// the node does not offer this compression algorithm in SUPPORTED (both set: no COMPRESSION entry at all)
+    pub no_lz4: bool,
+    pub no_snappy: bool,
 }
 
 #[derive(Debug, Clone)]
@@ -674,7 +677,13 @@ fn supported_options(node: &MockNode, shard: Option<u16>) -> BTreeMap<String, Ve
     let spec = node.spec.read().unwrap();
     let mut m = BTreeMap::new();
     m.insert("CQL_VERSION".to_string(), vec!["3.0.0".to_string()]);
-    m.insert("COMPRESSION".to_string(), vec!["lz4".to_string(), "snappy".to_string()]);
+    {
+        let f = spec.features;
+        let algos: Vec<String> = [("lz4", f.no_lz4), ("snappy", f.no_snappy)].iter().filter(|(_, no)| !no).map(|(a, _)| a.to_string()).collect();
+        if !algos.is_empty() {
+            m.insert("COMPRESSION".to_string(), algos);
+        }
+    }
     if let (Some(sh), Some(s)) = (spec.sharding, shard) {
         m.insert("SCYLLA_SHARD".into(), vec![s.to_string()]);
         m.insert("SCYLLA_NR_SHARDS".into(), vec![sh.nr_shards.to_string()]);
@@ -918,6 +927,12 @@ fn handle_frame(inner: &Arc<ClusterInner>, node: &Arc<MockNode>, conn: &Arc<Conn
                 Some("snappy") => Some(Compression::Snappy),
                 _ => None,
             };
+            {
+                let f = node.spec.read().unwrap().features;
+                if (comp == Some(Compression::Lz4) && f.no_lz4) || (comp == Some(Compression::Snappy) && f.no_snappy) {
+                    violation(format!("STARTUP asks for compression {:?}, which SUPPORTED did not offer", options.get("COMPRESSION")));
+                }
+            }
             conn.ext.lock().unwrap().metadata_id = options.contains_key("SCYLLA_USE_METADATA_ID");
             // READY itself is sent uncompressed (compression applies to the frames after STARTUP)
             rq.reply(&Response::Ready);
